@@ -240,7 +240,7 @@ PARAMS = [{}, {"skipws": False}, {"skipws": True}, {"ws": " "}, {"ws": "\n"}]
 COMMENTS = {None: None, "line": ("Comment", {}, RE(r"#.*$")), "block": ("Comment", {}, RE(r"/\*(.|\n)*?\*/"))}
 
 
-WS_SETS = [{}, {"ws": "\r\n"}, {"ws": " \t\r\n"}, {"ws": "\t"}]  # whitespace sets of several characters (second F-rules parameter list)
+WS_SETS = [{}, {"ws": "\r\n"}, {"ws": " \t\r\n"}, {"ws": "\t"}, {"ws": "%\n"}]  # whitespace sets of several characters (second F-rules parameter list)
 
 
 def frules(tier, PARAMS=PARAMS):
